@@ -2484,3 +2484,280 @@ Lemma sync_claim_then_cancel :
   cnt_entered 0 s = 0 /\
   filter (fun l => match l with LRes (ACount _) _ => true | _ => false end) ls = [LRes (ACount 0) 0; LRes (ACount 0) 0].
 Proof. vm_compute. auto. Qed.
+
+(* ================================================================== *)
+(* C05: a panic inside a handler never takes a goroutine down.  If the only user code that panics is handler bodies
+   (not the threads' top level, not hooks, not filters), then over every schedule no goroutine ever reaches the
+   crashed state: every panicking action in anybody's code has a recover frame after it. *)
+Definition is_panic (a : action) : bool := match a with APanic _ => true | _ => false end.
+Definition nopanicb (l : list action) : bool := forallb (fun a => negb (is_panic a)) l.
+Definition panicky (i : instr) : bool := match i with IAct a | IDo a => is_panic a | _ => false end.
+Definition is_rec (i : instr) : bool := match i with IRecover _ _ _ => true | _ => false end.
+Definition has_rec (c : list instr) : bool := existsb is_rec c.
+Definition pr (c : list instr) : Prop := forall pre x post, c = pre ++ x :: post -> panicky x = true -> has_rec post = true.
+Definition nopan (c : list instr) : Prop := forall i, In i c -> panicky i = false.
+Definition is_some {A} (o : option A) : bool := match o with Some _ => true | None => false end.
+Definition hookok (P : program) (cfg : buscfg) (i : instr) : bool :=
+  match i with
+  | IBeforeCtx _ steps => forallb (fun st => match st with BUser b => nopanicb (body_of P b) | BPersist => true end) steps
+  | IBeforeLegacy _ => is_some (c_before_legacy cfg)
+  | IAfterLegacy _ => is_some (c_after_legacy cfg)
+  | IAfterCtx _ => is_some (c_after_ctx cfg)
+  | _ => true
+  end.
+Definition is_crashed (i : instr) : bool := match i with ICrashed => true | _ => false end.
+Definition tidy (P : program) (cfg : buscfg) (c : list instr) : Prop :=
+  forall i, In i c -> hookok P cfg i = true /\ is_crashed i = false.
+
+Record Ppanic (P : program) (cfg : buscfg) : Prop := {
+  pp_bl : forall b, c_before_legacy cfg = Some b -> nopanicb (body_of P b) = true;
+  pp_al : forall b, c_after_legacy cfg = Some b -> nopanicb (body_of P b) = true;
+  pp_ac : forall b, c_after_ctx cfg = Some b -> nopanicb (body_of P b) = true;
+  pp_bc : forallb (fun st => match st with BUser b => nopanicb (body_of P b) | BPersist => true end) (c_before_ctx cfg) = true;
+  pp_fl : forall f fl, assoc_get (p_filters P) f = Some fl -> nopanicb (f_acts fl) = true
+}.
+
+Lemma nopan_acts l : nopanicb l = true -> nopan (acts l).
+Proof.
+  intros H i Hi. unfold acts in Hi. apply in_map_iff in Hi. destruct Hi as [a [<- Ha]]. cbn.
+  unfold nopanicb in H. rewrite forallb_forall in H. specialize (H a Ha). destruct (is_panic a); [discriminate | reflexivity].
+Qed.
+Lemma tidy_acts P cfg l : tidy P cfg (acts l).
+Proof. intros i Hi. unfold acts in Hi. apply in_map_iff in Hi. destruct Hi as [a [<- _]]. split; reflexivity. Qed.
+Lemma nopan_pr c : nopan c -> pr c.
+Proof. intros H pre x post E Px. rewrite (H x) in Px; [discriminate|]. rewrite E. apply in_or_app. right. left. reflexivity. Qed.
+Lemma pr_app X suf : pr X -> pr suf -> pr (X ++ suf).
+Proof.
+  revert suf. induction X as [|y X IH]; intros suf HX Hs; [exact Hs|].
+  intros pre x post E Px. destruct pre as [|p0 pre]; cbn in E; inversion E; subst.
+  - pose proof (HX [] x X eq_refl Px) as H1. unfold has_rec in *. rewrite existsb_app, H1. reflexivity.
+  - assert (HX' : pr X).
+    { intros pre' x' post' E' Px'. apply (HX (p0 :: pre') x' post'); [cbn; rewrite E'; reflexivity | exact Px']. }
+    apply (IH suf HX' Hs pre x post); [assumption | exact Px].
+Qed.
+Lemma pr_suffix pre c : pr (pre ++ c) -> pr c.
+Proof. intros H p x post E W. apply (H (pre ++ p) x post); [rewrite E, app_assoc; reflexivity | exact W]. Qed.
+Lemma pr_snoc_rec X p h a : pr (X ++ [IRecover p h a]).
+Proof.
+  induction X as [|y X IH]; intros pre x post E Px.
+  - destruct pre as [|p0 pre]; cbn in E; inversion E; subst; [discriminate Px | destruct pre; discriminate].
+  - destruct pre as [|p0 pre]; cbn in E; inversion E; subst.
+    + unfold has_rec. rewrite existsb_app. cbn. apply orb_true_r.
+    + apply (IH pre x post); [assumption | exact Px].
+Qed.
+Lemma pr_call_handler P p h async obs : pr (call_handler P p h async obs).
+Proof. unfold call_handler. rewrite !app_assoc. apply pr_snoc_rec. Qed.
+Lemma pr_head x rest : pr (x :: rest) -> panicky x = true -> has_rec rest = true.
+Proof. intros H W. apply (H [] x rest eq_refl W). Qed.
+Lemma has_rec_unwind l : has_rec l = true -> unwind l <> None.
+Proof.
+  induction l as [|i l IH]; cbn; [discriminate|]. destruct i; cbn; try exact IH; discriminate.
+Qed.
+
+Lemma tidy_app P cfg a b : tidy P cfg a -> tidy P cfg b -> tidy P cfg (a ++ b).
+Proof. intros Ha Hb i Hi. apply in_app_or in Hi. destruct Hi; auto. Qed.
+Lemma tidy_cons P cfg i c : hookok P cfg i = true -> is_crashed i = false -> tidy P cfg c -> tidy P cfg (i :: c).
+Proof. intros H1 H2 Hc x [<-|Hx]; auto. Qed.
+Lemma tidy_nil P cfg : tidy P cfg []. Proof. intros i []. Qed.
+Lemma tidy_entries P cfg p l : tidy P cfg (map (IEntry p) l).
+Proof. intros i Hi. apply in_map_iff in Hi. destruct Hi as [a [<- _]]. split; reflexivity. Qed.
+Lemma tidy_shards P cfg l : tidy P cfg (map IClearShard l).
+Proof. intros i Hi. apply in_map_iff in Hi. destruct Hi as [a [<- _]]. split; reflexivity. Qed.
+Lemma tidy_after_recover P cfg p h async panicked : tidy P cfg (after_recover cfg p h async panicked).
+Proof.
+  unfold after_recover. repeat apply tidy_app;
+    [destruct (h_seq (r_spec h)) | destruct (panicked && c_panic_handler cfg) | destruct (c_obs cfg) | destruct async];
+    try apply tidy_nil; intros i [<-|[]]; split; reflexivity.
+Qed.
+Lemma tidy_call_handler P cfg p h async obs : tidy P cfg (call_handler P p h async obs).
+Proof.
+  unfold call_handler. repeat apply tidy_app; try apply tidy_acts;
+    [destruct obs | destruct (h_seq (r_spec h)) | | ]; try apply tidy_nil; intros i [<-|[]]; split; reflexivity.
+Qed.
+Lemma nopan_app a b : nopan a -> nopan b -> nopan (a ++ b).
+Proof. intros Ha Hb i Hi. apply in_app_or in Hi. destruct Hi; auto. Qed.
+Lemma nopan_cons i c : panicky i = false -> nopan c -> nopan (i :: c).
+Proof. intros Hi Hc x [<-|Hx]; auto. Qed.
+Lemma nopan_nil : nopan []. Proof. intros i []. Qed.
+Lemma nopan_entries p l : nopan (map (IEntry p) l).
+Proof. intros i Hi. apply in_map_iff in Hi. destruct Hi as [a [<- _]]. reflexivity. Qed.
+Lemma nopan_shards l : nopan (map IClearShard l).
+Proof. intros i Hi. apply in_map_iff in Hi. destruct Hi as [a [<- _]]. reflexivity. Qed.
+Lemma nopan_after_recover cfg p h async panicked : nopan (after_recover cfg p h async panicked).
+Proof.
+  unfold after_recover. repeat apply nopan_app;
+    [destruct (h_seq (r_spec h)) | destruct (panicked && c_panic_handler cfg) | destruct (c_obs cfg) | destruct async];
+    try apply nopan_nil; intros i [<-|[]]; reflexivity.
+Qed.
+Lemma nopan_filter_acts P cfg f : Ppanic P cfg -> nopan (acts (match assoc_get (p_filters P) f with Some fl => f_acts fl | None => [] end)).
+Proof.
+  intros HP. destruct (assoc_get (p_filters P) f) as [fl|] eqn:E; [apply nopan_acts, (pp_fl P cfg HP f fl E) | apply nopan_nil].
+Qed.
+
+Ltac pn_tac HP :=
+  repeat first
+    [ apply nopan_nil
+    | apply nopan_after_recover
+    | apply (nopan_filter_acts _ _ _ HP)
+    | apply nopan_entries
+    | apply nopan_shards
+    | apply nopan_cons; [reflexivity|]
+    | apply nopan_app
+    | match goal with |- nopan (if ?b then _ else _) => destruct b end
+    | match goal with |- nopan (match ?b with _ => _ end) => destruct b end
+    | (let i := fresh in let H := fresh in intros i H; destruct H as [<-|[]]; reflexivity)
+    | (let i := fresh in let H := fresh in intros i H; destruct H) ].
+Ltac td_tac :=
+  repeat first
+    [ apply tidy_nil
+    | apply tidy_after_recover
+    | apply tidy_call_handler
+    | apply tidy_acts
+    | apply tidy_entries
+    | apply tidy_shards
+    | apply tidy_cons; [reflexivity|reflexivity|]
+    | apply tidy_app
+    | match goal with |- tidy _ _ (if ?b then _ else _) => destruct b end
+    | match goal with |- tidy _ _ (match ?b with _ => _ end) => destruct b end
+    | (let i := fresh in let H := fresh in intros i H; destruct H as [<-|[]]; split; reflexivity)
+    | (let i := fresh in let H := fresh in intros i H; destruct H) ].
+
+Ltac fin_pan HP :=
+  eexists; split;
+  [first [apply code_cont | (cbn [cont set_code code]; rewrite ?upd_pub_code; apply assoc_get_set_same)]
+  | left; eexists;
+    match goal with rest : list instr |- _ =>
+      exists rest, []; split; [sp_tac | split; [reflexivity | split; [apply nopan_pr; pn_tac HP | td_tac]]] end].
+
+Lemma step_panic P cfg s a i rest s' ls :
+  Ppanic P cfg -> hookok P cfg i = true -> pr (i :: rest) ->
+  step_instr P cfg s a i rest = Some (s', ls) ->
+  exists newc, assoc_get (code s') a = Some newc /\
+   ((exists X suf drop, newc = X ++ suf /\ rest = drop ++ suf /\ pr X /\ tidy P cfg X) \/
+    (panicky i = true /\ exists v, newc = IDo (APanic v) :: rest)).
+Proof.
+  intros HP Hk Hpr H. destruct i; cbn [step_instr] in H.
+  all: try (break_head H; try discriminate; inversion H; subst; clear H; solve [fin_pan HP]).
+  - (* IAct *)
+    inversion H; subst; clear H.
+    match goal with |- context[IDo ?act] => destruct act;
+      try (eexists; split; [apply code_cont|]; left; eexists; exists rest, []; split; [apply (splits_cons _ _ _ _ (splits_nil rest))|];
+           split; [reflexivity|]; split; [apply nopan_pr; intros x [<-|[]]; reflexivity | intros x [<-|[]]; split; reflexivity]) end.
+    eexists. split; [apply code_cont|]. right. split; [reflexivity|]. eexists. reflexivity.
+  - (* IDo *)
+    destruct a0; cbn [step_instr] in H; break_head H; try discriminate; inversion H; subst; clear H;
+      try solve [fin_pan HP].
+    + (* APub *)
+      eexists. split; [cbn [cont set_code code]; apply assoc_get_set_same|]. left. eexists. exists rest, []. split; [sp_tac|].
+      split; [reflexivity|]. split.
+      * apply nopan_pr. pn_tac HP.
+      * apply tidy_app; [td_tac|]. apply tidy_app; [|apply tidy_app; [|td_tac]].
+        -- destruct (c_before_legacy cfg) eqn:E; [|apply tidy_nil]. intros x [<-|[]]. cbn [hookok is_crashed]. rewrite E. split; reflexivity.
+        -- destruct (c_before_ctx cfg) eqn:E; [apply tidy_nil|]. intros x [<-|[]]. cbn [hookok is_crashed]. rewrite <- E. split; [apply (pp_bc P cfg HP) | reflexivity].
+    + (* APanic recovered *)
+      match goal with U : unwind rest = Some (?p, ?h, ?async, ?r) |- _ =>
+        apply unwind_spec in U; destruct U as [pre [E _]];
+        eexists; split; [apply code_cont|]; left; eexists; eexists; exists (pre ++ [IRecover p h async]);
+        split; [reflexivity|]; split; [rewrite E, <- app_assoc; reflexivity|];
+        split; [apply nopan_pr, nopan_after_recover | apply tidy_after_recover] end.
+    + (* APanic unrecovered: impossible, a recover frame follows *)
+      exfalso. pose proof (pr_head _ _ Hpr eq_refl) as Hr. apply has_rec_unwind in Hr. congruence.
+  - (* IBeforeLegacy *)
+    inversion H; subst; clear H. cbn [hookok] in Hk. destruct (c_before_legacy cfg) as [b|] eqn:E; [|discriminate].
+    eexists. split; [apply code_cont|]. left. eexists. exists rest, []. split; [sp_tac|]. split; [reflexivity|].
+    split; [apply nopan_pr, nopan_app; [apply nopan_acts, (pp_bl P cfg HP b E) | apply nopan_nil] | apply tidy_app; [apply tidy_acts | apply tidy_nil]].
+  - (* IBeforeCtx *)
+    destruct steps as [|[b|] more]; inversion H; subst; clear H.
+    + fin_pan HP.
+    + cbn [hookok forallb] in Hk. apply andb_true_iff in Hk. destruct Hk as [Hb Hm].
+      eexists. split; [apply code_cont|]. left. eexists. exists rest, []. split; [sp_tac|]. split; [reflexivity|].
+      split; [apply nopan_pr, nopan_app; [apply nopan_acts, Hb | pn_tac HP] |].
+      apply tidy_app; [apply tidy_acts|]. apply tidy_cons; [exact Hm | reflexivity | apply tidy_nil].
+    + cbn [hookok forallb] in Hk.
+      eexists. split; [apply code_cont|]. left. eexists. exists rest, []. split; [sp_tac|]. split; [reflexivity|].
+      split; [apply nopan_pr; pn_tac HP |].
+      apply tidy_cons; [reflexivity | reflexivity |]. apply tidy_cons; [exact Hk | reflexivity | apply tidy_nil].
+  - (* ISnapshot *)
+    inversion H; subst; clear H.
+    eexists. split; [first [apply code_cont | (cbn [cont set_code code]; rewrite ?upd_pub_code; apply assoc_get_set_same)]|].
+    left. eexists. exists rest, []. split; [sp_tac|]. split; [reflexivity|]. split; [apply nopan_pr; pn_tac HP|].
+    apply tidy_app; [apply tidy_entries|]. apply tidy_cons; [reflexivity|reflexivity|]. apply tidy_app; [|apply tidy_app; [|td_tac]].
+    + destruct (c_after_legacy cfg) eqn:E; [|apply tidy_nil]. intros x [<-|[]]. cbn [hookok is_crashed]. rewrite E. split; reflexivity.
+    + destruct (c_after_ctx cfg) eqn:E; [|apply tidy_nil]. intros x [<-|[]]. cbn [hookok is_crashed]. rewrite E. split; reflexivity.
+  - (* IDispatch *)
+    break_head H; try discriminate; inversion H; subst; clear H; try solve [fin_pan HP].
+    eexists. split; [apply code_cont|]. left. eexists. exists rest, []. split; [sp_tac|]. split; [reflexivity|].
+    split; [rewrite app_nil_r; apply pr_call_handler | apply tidy_app; [apply tidy_call_handler | apply tidy_nil]].
+  - (* ITaskStart *)
+    break_head H; try discriminate; inversion H; subst; clear H; try solve [fin_pan HP].
+    eexists. split; [apply code_cont|]. left. eexists. exists rest, []. split; [sp_tac|]. split; [reflexivity|].
+    split; [rewrite app_nil_r; apply pr_call_handler | apply tidy_app; [apply tidy_call_handler | apply tidy_nil]].
+  - (* IAfterLegacy *)
+    inversion H; subst; clear H. cbn [hookok] in Hk. destruct (c_after_legacy cfg) as [b|] eqn:E; [|discriminate].
+    eexists. split; [apply code_cont|]. left. eexists. exists rest, []. split; [sp_tac|]. split; [reflexivity|].
+    split; [apply nopan_pr, nopan_app; [apply nopan_acts, (pp_al P cfg HP b E) | apply nopan_nil] | apply tidy_app; [apply tidy_acts | apply tidy_nil]].
+  - (* IAfterCtx *)
+    inversion H; subst; clear H. cbn [hookok] in Hk. destruct (c_after_ctx cfg) as [b|] eqn:E; [|discriminate].
+    eexists. split; [apply code_cont|]. left. eexists. exists rest, []. split; [sp_tac|]. split; [reflexivity|].
+    split; [apply nopan_pr, nopan_app; [apply nopan_acts, (pp_ac P cfg HP b E) | apply nopan_nil] | apply tidy_app; [apply tidy_acts | apply tidy_nil]].
+Qed.
+
+Definition pinv (P : program) (cfg : buscfg) (s : bstate) : Prop :=
+  forall a c, assoc_get (code s) a = Some c -> pr c /\ tidy P cfg c.
+
+Lemma pinv_step P cfg s b s' ls : Ppanic P cfg -> winv s -> pinv P cfg s -> mstep P cfg s b = Some (s', ls) -> pinv P cfg s'.
+Proof.
+  intros HP WI PI H. unfold mstep in H.
+  destruct (assoc_get (code s) b) as [[|i rest]|] eqn:Hb; try discriminate.
+  destruct (PI b _ Hb) as [Hpr Htd].
+  assert (Hnb : b <> next_actor s) by (destruct (wi_bound s WI b _ Hb); lia).
+  destruct (step_panic P cfg s b i rest s' ls HP (proj1 (Htd i (or_introl eq_refl))) Hpr H) as [newc [Hnew Hcase]].
+  pose proof (step_frame2 P cfg s b i rest s' ls H Hnb) as F.
+  assert (Hrest : pr rest /\ tidy P cfg rest).
+  { split; [apply (pr_suffix [i]); exact Hpr | intros x Hx; apply Htd; right; exact Hx]. }
+  intros a c Ha. destruct (Nat.eq_dec a b) as [->|N].
+  - rewrite Hnew in Ha. inversion Ha; subst c.
+    destruct Hcase as [[X [suf [drop [-> [E [HX TX]]]]]] | [Pi [v ->]]].
+    + assert (Hsuf : pr suf /\ tidy P cfg suf).
+      { destruct Hrest as [R1 R2]. rewrite E in R1, R2. split; [apply (pr_suffix drop); exact R1 | intros x Hx; apply R2; apply in_or_app; right; exact Hx]. }
+      split; [apply pr_app; [exact HX | apply Hsuf] | apply tidy_app; [exact TX | apply Hsuf]].
+    + split.
+      * intros pre x post Ec Px. destruct pre as [|p0 pre]; cbn in Ec; inversion Ec; subst.
+        -- apply (pr_head _ _ Hpr Pi).
+        -- apply (proj1 Hrest pre x post); [reflexivity | exact Px].
+      * apply tidy_cons; [reflexivity | reflexivity | apply Hrest].
+  - destruct (F a N) as [E | [-> [[p [h E]] | [cx [_ E]]]]].
+    + rewrite E in Ha. apply (PI a c Ha).
+    + rewrite E in Ha. inversion Ha. split; [apply nopan_pr; intros x [<-|[]]; reflexivity | intros x [<-|[]]; split; reflexivity].
+    + rewrite E in Ha. inversion Ha. split; [apply nopan_pr; intros x [<-|[]]; reflexivity | intros x [<-|[]]; split; reflexivity].
+Qed.
+
+Lemma pinv_init P cfg threads : (forall l, In l threads -> nopanicb l = true) -> pinv P cfg (init_state threads).
+Proof.
+  intros Hth a c H.
+  assert (Hi: In (a, c) (combine (seq 0 (length threads)) (map acts threads))).
+  { unfold init_state in H. cbn [code] in H.
+    induction (combine (seq 0 (length threads)) (map acts threads)) as [|[k v] r IH]; [discriminate|].
+    cbn in H. destruct (Nat.eqb k a) eqn:E; [apply Nat.eqb_eq in E; inversion H; subst; left; reflexivity|right; apply IH, H]. }
+  apply in_combine_r in Hi. apply in_map_iff in Hi. destruct Hi as [l [<- Hl]].
+  split; [apply nopan_pr, nopan_acts, Hth, Hl | apply tidy_acts].
+Qed.
+
+Lemma pinv_run P cfg : Ppanic P cfg -> forall sched s, winv s -> pinv P cfg s -> pinv P cfg (fst (run P cfg s sched)).
+Proof.
+  intros HP. induction sched as [|a r IH]; intros s I S; cbn [run]; [exact S|].
+  destruct (mstep P cfg s a) as [[s' ls]|] eqn:E.
+  - specialize (IH s' (winv_step P cfg s a s' ls I E) (pinv_step P cfg s a s' ls HP I S E)). destruct (run P cfg s' r). exact IH.
+  - apply IH; assumption.
+Qed.
+
+(* over every schedule: when the only user code that panics is handler bodies, no goroutine ever crashes - every panic
+   is caught by the recover frame of the handler invocation it happened in *)
+Theorem handler_panics_never_crash P cfg threads sched :
+  Ppanic P cfg -> (forall l, In l threads -> nopanicb l = true) ->
+  forall a c, assoc_get (code (fst (run P cfg (init_state threads) sched))) a = Some c -> ~ In ICrashed c.
+Proof.
+  intros HP Hth a c Ha Hin.
+  destruct (pinv_run P cfg HP sched _ (winv_init threads) (pinv_init P cfg threads Hth) a c Ha) as [_ Td].
+  destruct (Td ICrashed Hin) as [_ X]. discriminate X.
+Qed.
